@@ -1,8 +1,8 @@
-\* the full consumer x producer product: items of length 0..4 over {0,1,2,3}
+\* the full consumer x producer product: items of length 0..4 over {0,1,2}
 SPECIFICATION Spec
 CONSTANTS
   MaxLen = 4
-  Alphabet = {0, 1, 2, 3}
+  Alphabet = {0, 1, 2}
   ConsumerSet <- AllConsumers
 INVARIANTS TypeOK AlgMatchesDecl LazyCreation OnlyStopEnds NeverBeyondFailure Emit
 CHECK_DEADLOCK FALSE
